@@ -125,6 +125,9 @@ def run(ctx):
                 SC.judge(ctx, scalar.simple_filter_for(rng, lane2, fname), rng, make_select(style, lambda x: x),
                          findings.sqla_semantic_triggers, "coverage:" + style, cap=150, profile=lane2)
                 ctx.cls("style:" + style)
+    for style in STYLES:
+        SC.machine_lane(ctx, ctx.rng("machine" + style), make_select(style, lambda x: x),
+                        findings.sqla_semantic_triggers, ctx.pick(15, 400), profile=clean)
     for i in range(ctx.pick(500, 20000)):
         if ctx.out_of_time():
             break
